@@ -110,9 +110,9 @@ fn end_of_execution() {
 const TEXT: &str = "abcdefghijklmnopqrstuvwxyz0123";
 
 #[derive(Clone, Copy, Debug)]
-enum Op { CloneDrop, Drop, Read, Push, Insert, Remove, Retain, Truncate, Clear, Reserve, ShrinkTo, CloneFrom, Pop }
-const OPS: [Op; 13] = [Op::CloneDrop, Op::Drop, Op::Read, Op::Push, Op::Insert, Op::Remove, Op::Retain, Op::Truncate, Op::Clear,
-                       Op::Reserve, Op::ShrinkTo, Op::CloneFrom, Op::Pop];
+enum Op { CloneDrop, Drop, Read, Push, Insert, Remove, Retain, Truncate, Clear, Reserve, ShrinkTo, CloneFrom, Pop, Refresh }
+const OPS: [Op; 14] = [Op::CloneDrop, Op::Drop, Op::Read, Op::Push, Op::Insert, Op::Remove, Op::Retain, Op::Truncate, Op::Clear,
+                       Op::Reserve, Op::ShrinkTo, Op::CloneFrom, Op::Pop, Op::Refresh];
 
 /// runs `op` on the thread's own handle and checks it against a String driven the same way
 fn run_op(mut s: LeanString, op: Op) {
@@ -131,6 +131,17 @@ fn run_op(mut s: LeanString, op: Op) {
         Op::ShrinkTo => { s.truncate(20); m.truncate(20); s.shrink_to(0); }
         Op::CloneFrom => { let other = LeanString::from("a different heap string, long enough"); s.clone_from(&other); m = other.as_str().to_string(); }
         Op::Pop => { assert_eq!(s.pop(), m.pop()); }
+        Op::Refresh => {
+            // clone_from between two handles of the SAME buffer (a shortened clone refreshed from its source), then an
+            // edit through the refreshed handle: the source must not move
+            let mut c = s.clone();
+            c.truncate(10);
+            c.clone_from(&s);
+            assert_eq!(c.as_str(), m.as_str());
+            c.push('?');
+            assert_eq!(c.len(), m.len() + 1);
+            drop(c);
+        }
     }
     assert_eq!(s.as_str(), m.as_str());
     drop(s);
@@ -189,6 +200,27 @@ fn program_scoped(a: Op, b: Op, variant: u8) {
     end_of_execution();
 }
 
+/// A LENDER THAT KEEPS WORKING (variant 12): main lends `&base` to one scoped thread, which reads and clones through it
+/// and runs `a` on its clone, while main itself runs `b` on ANOTHER handle it holds on the same buffer (legal Rust: only
+/// `base` is borrowed).  After the join main reads `base` and drops it.
+fn program_lender(a: Op, b: Op) {
+    let base: &'static LeanString = Box::leak(Box::new(LeanString::from(TEXT)));
+    let other = base.clone();
+    let ta = loom::thread::spawn(move || {
+        assert_eq!(base.as_str(), TEXT);
+        let c = base.clone();
+        run_op(c, a);
+        assert_eq!(base.len(), TEXT.len());
+    });
+    run_op(other, b);
+    assert_eq!(base.as_str(), TEXT);
+    ta.join().unwrap();
+    assert_eq!(base.as_str(), TEXT);
+    // SAFETY: the borrower has been joined; `base` came from Box::leak above
+    drop(unsafe { Box::from_raw(base as *const LeanString as *mut LeanString) });
+    end_of_execution();
+}
+
 const SCOPED_OPS: [Op; 7] = [Op::Read, Op::CloneDrop, Op::Push, Op::Remove, Op::Truncate, Op::ShrinkTo, Op::Clear];
 
 fn programs() -> Vec<(String, Op, Op, u8)> {
@@ -205,6 +237,11 @@ fn programs() -> Vec<(String, Op, Op, u8)> {
             for b in SCOPED_OPS.iter().skip(i) {
                 v.push((format!("&{:?}|&{:?}/v{}", a, b, variant), *a, *b, variant));
             }
+        }
+    }
+    for a in SCOPED_OPS.iter() {
+        for b in SCOPED_OPS.iter() {
+            v.push((format!("&{:?}|lender:{:?}/v12", a, b), *a, *b, 12));
         }
     }
     v
@@ -234,7 +271,7 @@ fn main() {
             builder.preemption_bound = Some(preempt);
             builder.check(move || {
                 it2.fetch_add(1, std::sync::atomic::Ordering::Relaxed);
-                if variant >= 10 { program_scoped(a, b, variant) } else { program(a, b, variant) }
+                if variant == 12 { program_lender(a, b) } else if variant >= 10 { program_scoped(a, b, variant) } else { program(a, b, variant) }
             });
         });
         let n = iters.load(std::sync::atomic::Ordering::Relaxed);
